@@ -386,6 +386,10 @@ def g_jv(v):
         return "(JBool %s)" % g_bool(v)
     if isinstance(v, int):
         return "(JInt %s)" % core.g_z(v)
+    if isinstance(v, float):
+        if not math.isfinite(v):
+            raise ValueError("non-finite number")
+        return "(JNum %s)" % g_codepoints(repr(v))
     if isinstance(v, str):
         return "(JStr %s)" % g_codepoints(v)
     if isinstance(v, dict):
@@ -854,6 +858,138 @@ def graph_items(cases):
     return items
 
 
+def make_system_case(rng):
+    net = make_network_case(rng)
+    nenv = len(net["envs"])
+    if rng.random() < 0.5:
+        sp = make_grid_case(rng)
+        sp["env"] = [rng.randrange(nenv) for _ in sp["env"]]
+        ncell = sp["w"] * sp["h"] * sp["d"]
+        kind = "grid"
+    else:
+        sp = make_graph_case(rng)
+        for nd in sp["nodes"]:
+            nd["env"] = rng.randrange(nenv)
+        ncell = len(sp["nodes"])
+        kind = "graph"
+    n = ncell * len(net["species"])
+    return {"net": net, "space_kind": kind, "space": sp, "state": [rng.choice([0.0, 1.0, 2.5, 13.0, 1e-3, 600.25]) for _ in range(n)],
+            "state_units": list(sysgen.rand_sys(rng)), "chs": [rng.randrange(2) for _ in range(n)], "units": list(sysgen.rand_sys(rng)),
+            "parent": list(sysgen.rand_sys(rng)), "alias_seed": rng.randrange(2 ** 30)}
+
+
+def _py_network(strengths, U, c):
+    def arg(ev):
+        return _qtext(ev["scalar"]) if "scalar" in ev else {k: _qtext(q) for k, q in ev["dict"]}
+    sps = []
+    for sc in c["species"]:
+        chs = sc["chstt"]["scalar"] if "scalar" in sc["chstt"] else {k: b for k, b in sc["chstt"]["dict"]}
+        sps.append(strengths.Species(label=sc["label"], D=arg(sc["D"]), density=arg(sc["dens"]), chstt=chs, units_system=sysgen.py_sys(U, sc["units"])))
+    rs = [strengths.Reaction([dict((l, z) for l, z in rc["sub"]), dict((l, z) for l, z in rc["prod"])], kf=arg(rc["kf"]), kr=arg(rc["kr"]),
+                             label=rc["label"], units_system=sysgen.py_sys(U, rc["units"])) for rc in c["reactions"]]
+    return strengths.RDNetwork(species=sps, reactions=rs, environments=list(c["envs"]), units_system=sysgen.py_sys(U, c["units"]))
+
+
+def _py_space(strengths, U, kind, c):
+    import strengths.rdgraphspace as gs
+    if kind == "grid":
+        return strengths.RDGridSpace(w=c["w"], h=c["h"], d=c["d"], cell_env=list(c["env"]), cell_vol=_qtext(c["vol"]),
+                                     boundary_conditions={a: sysgen.BC[p] for a, p in zip("xyz", c["per"])}, units_system=sysgen.py_sys(U, c["units"]))
+    nodes = [gs.RDGraphSpaceNode(volume=_qtext(n["vol"]), environment=n["env"], units_system=sysgen.py_sys(U, n["units"])) for n in c["nodes"]]
+    edges = [gs.RDGraphSpaceEdge(i=e["i"], j=e["j"], surface=_qtext(e["sf"]), distance=_qtext(e["ds"]), units_system=sysgen.py_sys(U, e["units"]))
+             for e in c["edges"]]
+    return strengths.RDGraphSpace(nodes=nodes, edges=edges, units_system=sysgen.py_sys(U, c["units"]))
+
+
+def observe_system(c):
+    import strengths
+    import strengths.rdsystem as rs
+    U = strengths.units
+    try:
+        state = U.UnitArray(list(c["state"]), U.Units(sysgen.py_sys(U, c["state_units"]), U.UnitsDimensions(quantity=1)))
+        sy = strengths.RDSystem(network=_py_network(strengths, U, c["net"]), space=_py_space(strengths, U, c["space_kind"], c["space"]),
+                                state=state, chemostats=list(c["chs"]), units_system=sysgen.py_sys(U, c["units"]))
+        written = json.loads(json.dumps(rs.rdsystem_to_dict(sy)))
+    except Exception as e:
+        return {"error": "%s: %s" % (type(e).__name__, str(e)[:100])}
+    parent = sysgen.py_sys(U, c["parent"])
+    rng = random.Random(c["alias_seed"])
+    variants = [["as_written", copy.deepcopy(written)]]
+    for syn in ALIASES.get("system", []):
+        present = [k for k in syn if k in written]
+        if len(present) == 1 and len(syn) > 1 and rng.random() < 0.6:
+            v = copy.deepcopy(written)
+            v[rng.choice([a for a in syn if a != present[0]])] = v.pop(present[0])
+            variants.append(["alias:" + present[0], v])
+    if rng.random() < 0.5:
+        v = copy.deepcopy(written)
+        del v["units"]
+        variants.append(["omitted:units", v])
+    v = copy.deepcopy(written)
+    r = rng.random()
+    if r < 0.3:
+        v["chemostats"] = [bool(b) for b in v["chemostats"]]
+        variants.append(["bool_flags", v])
+    elif r < 0.6:
+        sp = v["space"]                                         # an environment beyond the network's list: rejected
+        if sp["type"] == "grid":
+            sp["cell_env"][0] = len(v["network"]["environments"])
+        elif sp["nodes"]:
+            sp["nodes"][0]["environment"] = len(v["network"]["environments"])
+        variants.append(["env_beyond_list", v])
+    elif r < 0.8 and v["space"]["type"] == "grid":
+        del v["space"]["type"]                                  # a space without a type is a grid
+        variants.append(["untyped_grid", v])
+    else:
+        v["state"]["units"] = "s"                               # not an amount: rejected
+        variants.append(["state_not_an_amount", v])
+    return {"written": written, "variants": _variants_out(variants, lambda d: rs.rdsystem_to_dict(rs.rdsystem_from_dict(d, parent)))}
+
+
+def g_network_obj(c):
+    return "(Build_network_obj str %s %s %s %s)" % (g_list([g_species_obj(sc) for sc in c["species"]]), g_list([g_reaction_obj(rc) for rc in c["reactions"]]),
+                                                     g_list([g_codepoints(e) for e in c["envs"]]), si.g_usys(c["units"]))
+
+
+def g_space_obj(kind, c):
+    def gq(q):
+        return "(%s, (%s, %s))" % (g_codepoints(repr(float(q["v"]))), si.g_usys(q["sys"]), si.g_dim(q["dim"]))
+    if kind == "grid":
+        return "(SpGrid str (Build_grid_obj str %s %s %s %s %s (%s, %s, %s) %s))" % (
+            core.g_z(c["w"]), core.g_z(c["h"]), core.g_z(c["d"]), g_list([core.g_z(e) for e in c["env"]]), gq(c["vol"]),
+            g_bool(c["per"][0]), g_bool(c["per"][1]), g_bool(c["per"][2]), si.g_usys(c["units"]))
+    gn = g_list(["(Build_node_obj str %s %s %s)" % (gq(n["vol"]), core.g_z(n["env"]), si.g_usys(n["units"])) for n in c["nodes"]])
+    ge = g_list(["(Build_edge_obj str %s %s %s %s %s)" % (core.g_z(e["i"]), core.g_z(e["j"]), gq(e["sf"]), gq(e["ds"]), si.g_usys(e["units"]))
+                 for e in c["edges"]])
+    return "(SpGraph str (Build_graph_obj str %s %s %s))" % (gn, ge, si.g_usys(c["units"]))
+
+
+def emit_system(c, o):
+    gs_ = "(Build_system_obj str %s %s (%s, (%s, %s)) %s %s)" % (
+        g_network_obj(c["net"]), g_space_obj(c["space_kind"], c["space"]), g_list([g_codepoints(repr(float(v))) for v in c["state"]]),
+        si.g_usys(c["state_units"]), si.g_dim([0, 0, 1]), g_list([core.g_z(b) for b in c["chs"]]), si.g_usys(c["units"]))
+    gc = "((%s : sy_obj), %s)" % (gs_, si.g_usys(c["parent"]))
+    if "error" in o:
+        return gc, "(JBool false, [])"
+    go = "(%s, %s)" % (g_jv(o["written"]), g_list(["(%s, %s)" % (g_jv(v), g_jv(w)) for _, v, w in o["variants"]]))
+    return gc, go
+
+
+def system_items(cases):
+    obs = child.map_children("c12", "observe_system", cases, timeout=60)
+    items = []
+    for c, o in zip(cases, obs):
+        if "timeout" in o or "crash" in o:
+            o = {"error": "timeout or crash"}
+        try:
+            gc, go = emit_system(c, o)
+        except ValueError as e:
+            o = {"error": str(e)}
+            gc, go = emit_system(c, o)
+        items.append({"case": c, "obs": o, "gcase": gc, "gobs": go, "nontrivial": "error" not in o})
+    return items
+
+
 def check(run):
     rng = random.Random(run.seed)
     sysgen.POOLS["space"] = ["cm", "mm", "dmm", "cmm", "µm", "nm", "dm"]
@@ -905,12 +1041,20 @@ def check(run):
         for label, _, w in it["obs"].get("variants", []):
             run.count("graph_variant:" + label.split(":")[0] + (":rejected" if w is None else ""))
     core.decide(run, pitems, IMPORTS, "accept_C12_graph", oracle_species, shard=30)
+    yitems = system_items([make_system_case(rng) for _ in range(ns // 2)])
+    for it in yitems:
+        for label, _, w in it["obs"].get("variants", []):
+            run.count("system_variant:" + label.split(":")[0] + (":rejected" if w is None else ""))
+    core.decide(run, yitems, IMPORTS, "accept_C12_system", oracle_species, shard=10)
 
 
 def replay(run, payload):
     sysgen.POOLS["space"] = ["cm", "mm", "dmm", "cmm", "µm", "nm", "dm"]
     if payload.get("correspondence") == "accept_C12_species":
         core.decide(run, species_items([payload["case"]]), IMPORTS, "accept_C12_species", oracle_species)
+        return
+    if payload.get("correspondence") == "accept_C12_system":
+        core.decide(run, system_items([payload["case"]]), IMPORTS, "accept_C12_system", oracle_species)
         return
     if payload.get("correspondence") == "accept_C12_graph":
         core.decide(run, graph_items([payload["case"]]), IMPORTS, "accept_C12_graph", oracle_species)
